@@ -578,7 +578,7 @@ func (s *AbsfsNFS) CreateWithContext(ctx context.Context, dir *NFSNode, name str
 	// Invalidate parent directory caches and negative cache entries in the directory
 	s.attrCache.Invalidate(dir.path)
 	s.attrCache.InvalidateNegativeInDir(dir.path)
-	s.attrCache.Invalidate(path) // Also invalidate the specific path in case it was negatively cached
+	s.attrCache.InvalidateTree(path) // the new name and anything (negatively) cached below it
 	if s.dirCache != nil {
 		s.dirCache.Invalidate(dir.path)
 	}
@@ -973,7 +973,7 @@ func (s *AbsfsNFS) Symlink(dir *NFSNode, name string, target string, attrs *NFSA
 	// Invalidate parent directory caches and negative cache entries in the directory
 	s.attrCache.Invalidate(dir.path)
 	s.attrCache.InvalidateNegativeInDir(dir.path)
-	s.attrCache.Invalidate(path) // Also invalidate the specific path in case it was negatively cached
+	s.attrCache.InvalidateTree(path) // the new name and anything (negatively) cached below it
 	if s.dirCache != nil {
 		s.dirCache.Invalidate(dir.path)
 	}
